@@ -291,6 +291,16 @@ pub mod venv {
     use super::*;
     pub struct OsStr0;
     pub enum VarError { NotPresent, NotUnicode(OsStr0) }
+    pub struct OsString0;
+    impl OsString0 {
+        #[verifier::external_body]
+        pub fn is_empty(&self) -> (r: bool) { unimplemented!() }
+        #[verifier::external_body]
+        pub fn len(&self) -> (r: usize) { unimplemented!() }
+    }
+    /// std::env::var_os: presence and raw value, unconstrained here (only `var` is tied to env_value)
+    #[verifier::external_body]
+    pub fn var_os(name: &str) -> (r: Option<OsString0>) { unimplemented!() }
     #[verifier::external_body]
     pub fn var(name: &str) -> (r: Result<String, VarError>)
         ensures r matches Ok(s) ==> s@ == env_value(name@)
